@@ -328,3 +328,36 @@ Proof.
   intros [He Hf]. split; [|exact Hf]. intros a b H. cbn [remove_out_edges sg_edges] in H.
   apply filter_In in H. now apply He.
 Qed.
+
+(* ---------- only and / or nodes have outgoing edges ---------- *)
+Definition is_gate (t : tid) : bool := match t with GAnd | GOr => true | _ => false end.
+
+Definition gate_at (g : sgraph) (a : nat) : Prop := exists t, sg_label g a = Some t /\ is_gate t = true.
+
+Definition srcs_ok (g : sgraph) : Prop := forall a b, In (a, b) (sg_edges g) -> gate_at g a.
+
+Lemma add_node_srcs rc t g g' x : Inv g -> add_node rc t g = (x, g') -> srcs_ok g -> srcs_ok g'.
+Proof.
+  intros HI Ha H a b Hab. rewrite (add_node_edges rc t g g' x Ha) in Hab.
+  destruct (H a b Hab) as [ta [Hl Hg]]. exists ta. split; [|exact Hg].
+  rewrite (add_node_label_old rc t g g' x Ha); [exact Hl|].
+  intros ->. rewrite (add_node_fresh rc t g g' x HI Ha) in Hl. discriminate.
+Qed.
+
+Lemma add_edge_srcs a b g g' : add_edge a b g = Some g' -> gate_at g a -> srcs_ok g -> srcs_ok g'.
+Proof.
+  intros E Ha H p q Hpq. rewrite (add_edge_eq a b g g' E) in Hpq. cbn [sg_edges] in Hpq.
+  unfold gate_at. rewrite (add_edge_label a b g g' E).
+  destruct Hpq as [Epq|Hpq]; [injection Epq as <- <-; exact Ha|now apply (H p q)].
+Qed.
+
+Lemma remove_edge_srcs a b g : srcs_ok g -> srcs_ok (remove_edge a b g).
+Proof. intros H p q Hpq. cbn [remove_edge sg_edges] in Hpq. apply remove_first_incl in Hpq. now apply (H p q). Qed.
+
+Lemma srcs_out_gate g x c : srcs_ok g -> In c (sg_out g x) -> gate_at g x.
+Proof. intros H Hc. apply (H x c). now apply in_outs. Qed.
+
+Lemma add_edge_out_mono a b g g' x z : add_edge a b g = Some g' -> In z (sg_out g x) -> In z (sg_out g' x).
+Proof.
+  intros E H. rewrite (add_edge_eq a b g g' E). apply in_outs. cbn [sg_edges]. right. now apply in_outs.
+Qed.
